@@ -882,3 +882,541 @@ Proof.
   - destruct ra as [|a ra]; [congruence|]. exists a. split; [left; reflexivity|].
     apply in_map_iff. exists None. split; [destruct a; reflexivity|assumption].
 Qed.
+
+(* ================================================================== *)
+(* 7. outside the known-finding classes the faithful model of mech      *)
+(*    satisfies the property (both for the tree as it is, fx = false,  *)
+(*    and with the proposed repairs, fx = true)                         *)
+(* ================================================================== *)
+Ltac comp_of_inv :=
+  let H := fresh "H" in
+  cbn [comp_of]; cbv zeta; intro H; try discriminate; try congruence;
+  match type of H with context [if ?b then _ else _] => destruct b; discriminate end.
+
+Lemma comp_of_CS j w : comp_of j = CS w -> j = IS w.
+Proof. destruct j as [z|l|a b| |l]; comp_of_inv. Qed.
+
+Lemma comp_of_CA j : comp_of j = CA -> j = IAll.
+Proof. destruct j as [z|l|a b| |l]; comp_of_inv. Qed.
+
+Lemma target_status_T2_out r c i j :
+  target_status r c (T2 i j) = COut ->
+  (comp_status r i = COut /\ comp_status c j = COut) \/
+  (comp_status r i = COut /\ exists a l, comp_status c j = CValid (a :: l)) \/
+  (comp_status c j = COut /\ exists a l, comp_status r i = CValid (a :: l)).
+Proof.
+  cbn [target_status].
+  destruct (comp_status r i) as [ri| |w]; destruct (comp_status c j) as [cj| |w']; intro H;
+    repeat match type of H with context [match ?l with [] => _ | _ => _ end] => destruct l end;
+    try discriminate;
+    first [left; solve [eauto] | right; left; solve [eauto 6] | right; right; solve [eauto 6]].
+Qed.
+
+Lemma dim_nonempty_valid n c a l : comp_status n c = CValid (a :: l) -> comp_of c <> CBad -> dim_attempts n (comp_of c) <> [].
+Proof. intros H Hb. rewrite (dim_attempts_valid _ _ _ H Hb). discriminate. Qed.
+Lemma dim_nonempty_out n c : comp_status n c = COut -> comp_of c <> CBad -> dim_attempts n (comp_of c) <> [].
+Proof. intros H Hb E. pose proof (dim_attempts_out _ _ H Hb) as Hin. rewrite E in Hin. destruct Hin. Qed.
+
+Definition covers (ats : list (option nat)) (ps : list nat) : Prop :=
+  exists qs, ats = map Some qs /\ forall p, In p qs <-> In p ps.
+
+Lemma outer_generic (rowmajor : bool) r c i j :
+  comp_of i <> CBad -> comp_of j <> CBad ->
+  let ats := (if rowmajor then row_outer else col_outer) r (dim_attempts r (comp_of i)) (dim_attempts c (comp_of j)) in
+  (forall ps, target_status r c (T2 i j) = CValid ps -> covers ats ps) /\
+  (target_status r c (T2 i j) = COut -> In None ats).
+Proof.
+  intros Hi Hj ats. split.
+  - intros ps H. apply target_status_T2_valid in H as (ri & cj & Ei & Ej & ->).
+    unfold ats. rewrite (dim_attempts_valid _ _ _ Ei Hi), (dim_attempts_valid _ _ _ Ej Hj).
+    destruct rowmajor.
+    + rewrite row_outer_valid. exists (lin2r r ri cj). split; [reflexivity|].
+      intro p. rewrite in_lin2r, in_lin2. reflexivity.
+    + rewrite col_outer_valid. exists (lin2 r ri cj). split; [reflexivity|]. reflexivity.
+  - intro H. apply target_status_T2_out in H.
+    assert (G : (In None (dim_attempts r (comp_of i)) /\ dim_attempts c (comp_of j) <> []) \/
+                (In None (dim_attempts c (comp_of j)) /\ dim_attempts r (comp_of i) <> [])).
+    { destruct H as [[H1 H2]|[[H1 (a & l & H2)]|[H1 (a & l & H2)]]].
+      - left. split; [apply dim_attempts_out; assumption|apply dim_nonempty_out; assumption].
+      - left. split; [apply dim_attempts_out; assumption|eapply dim_nonempty_valid; eassumption].
+      - right. split; [apply dim_attempts_out; assumption|eapply dim_nonempty_valid; eassumption]. }
+    unfold ats. destruct rowmajor; [apply row_outer_None|apply col_outer_None]; exact G.
+Qed.
+
+Lemma single_vec_scalar_inv i j z w : single_vec_scalar i j = Some (z, w) -> i = IV [z] /\ j = IS w.
+Proof.
+  destruct i as [?|[|z' [|? ?]]|? ?| |?]; cbn; try discriminate.
+  destruct j; cbn; try discriminate. intro H. injection H as -> ->. auto.
+Qed.
+
+Lemma is_uvec_CU i l : comp_of i = CU l -> is_uvec i = true.
+Proof. unfold is_uvec. intros ->. reflexivity. Qed.
+Lemma is_bmask_CB i l : comp_of i = CB l -> is_bmask i = true.
+Proof. unfold is_bmask. intros ->. reflexivity. Qed.
+
+Lemma mech_positions_T2 fx k r c i j ats :
+  (fx = false -> is_bmask i = true -> j = IAll -> False) ->
+  (fx = false -> mixed_ok k = true -> is_uvec i = true -> is_bmask j = true -> False) ->
+  mech_positions fx k r c (T2 i j) = Some ats ->
+  (forall ps, target_status r c (T2 i j) = CValid ps -> covers ats ps) /\
+  (target_status r c (T2 i j) = COut -> In None ats).
+Proof.
+  intros Hs1 Hs2 H. cbn [mech_positions] in H.
+  destruct (single_vec_scalar i j) as [[z w]|] eqn:Es.
+  - apply single_vec_scalar_inv in Es as [-> ->]. injection H as <-.
+    cbn [target_status comp_status map_opt].
+    destruct (chk r z) as [p|], (chk c w) as [q|]; cbn; split; intros; try discriminate; auto.
+    match goal with H : CValid _ = CValid _ |- _ => injection H as <- end.
+    exists [q * r + p]. split; [reflexivity|]. cbn. tauto.
+  - destruct (comp_of i) as [z|l|l| |] eqn:Ei; destruct (comp_of j) as [w|m|m| |] eqn:Ej; cbn [mech_pos2] in H;
+      try discriminate H.
+    all: try (rewrite <- ?Ei, <- ?Ej in H; injection H as <-;
+              first [apply (outer_generic true) | apply (outer_generic false)]; rewrite ?Ei, ?Ej; discriminate).
+    + (* CU, CS *)
+      destruct (chk c w) as [cc|] eqn:Ec.
+      * replace [Some cc] with (dim_attempts c (comp_of j)) in H by (rewrite Ej; cbn; rewrite Ec; reflexivity).
+        rewrite <- Ei in H. injection H as <-. apply (outer_generic false); rewrite ?Ei, ?Ej; discriminate.
+      * injection H as <-. apply comp_of_CS in Ej. subst j. split.
+        -- intros ps Hv. apply target_status_T2_valid in Hv as (ri & cj & _ & Hj & _).
+           cbn in Hj. rewrite Ec in Hj. discriminate.
+        -- intros _. left; reflexivity.
+    + (* CU, CB *)
+      destruct (mixed_ok k) eqn:Em; [|discriminate]. destruct fx.
+      * rewrite <- Ei, <- Ej in H. injection H as <-. apply (outer_generic true); rewrite ?Ei, ?Ej; discriminate.
+      * exfalso. apply Hs2; auto; [eapply is_uvec_CU|eapply is_bmask_CB]; eassumption.
+    + (* CU, CA *)
+      destruct (String.eqb k _); [discriminate|].
+      rewrite <- Ei, <- Ej in H. injection H as <-. apply (outer_generic false); rewrite ?Ei, ?Ej; discriminate.
+    + (* CB, CS *)
+      destruct (chk c w) as [cc|] eqn:Ec.
+      * replace [Some cc] with (dim_attempts c (comp_of j)) in H by (rewrite Ej; cbn; rewrite Ec; reflexivity).
+        rewrite <- Ei in H. injection H as <-. apply (outer_generic false); rewrite ?Ei, ?Ej; discriminate.
+      * injection H as <-. apply comp_of_CS in Ej. subst j. split.
+        -- intros ps Hv. apply target_status_T2_valid in Hv as (ri & cj & _ & Hj & _).
+           cbn in Hj. rewrite Ec in Hj. discriminate.
+        -- intros _. left; reflexivity.
+    + (* CB, CU *)
+      destruct (mixed_ok k); [|discriminate].
+      rewrite <- Ei, <- Ej in H. injection H as <-. apply (outer_generic true); rewrite ?Ei, ?Ej; discriminate.
+    + (* CB, CA *)
+      destruct fx.
+      * rewrite <- Ei, <- Ej in H. injection H as <-. apply (outer_generic false); rewrite ?Ei, ?Ej; discriminate.
+      * exfalso. apply Hs1; auto; [eapply is_bmask_CB; eassumption|apply comp_of_CA; assumption].
+Qed.
+
+Lemma single_mask_inv i b : single_mask i = Some b -> i = IM [b].
+Proof. destruct i as [?|?|? ?| |[|b' [|? ?]]]; cbn; try discriminate. intro H; injection H as ->; reflexivity. Qed.
+
+Lemma mech_positions_T1 fx k r c i ats :
+  1 <= r * c ->
+  mech_positions fx k r c (T1 i) = Some ats ->
+  (forall ps, target_status r c (T1 i) = CValid ps -> ats = map Some ps) /\
+  (target_status r c (T1 i) = COut -> In None ats).
+Proof.
+  intros Hn H. cbn [mech_positions target_status] in *. remember (r * c) as n eqn:En. clear En.
+  destruct (single_mask i) as [b|] eqn:Es.
+  - apply single_mask_inv in Es. subst i. injection H as <-. cbn [comp_status length].
+    destruct (Nat.eqb_spec 1 n) as [<-|Hne].
+    + split; [|discriminate]. intros ps Hv. injection Hv as <-. destruct b; reflexivity.
+    + assert (E : existsb (fun p => Nat.leb n p) (mask_pos 0 [b]) = false).
+      { destruct b; cbn; [|reflexivity]. destruct n; [lia|reflexivity]. }
+      rewrite E. split; discriminate.
+  - assert (G : forall ci, comp_of i = ci -> ci <> CBad ->
+                  (forall ps, comp_status n i = CValid ps -> dim_attempts n ci = map Some ps) /\
+                  (comp_status n i = COut -> In None (dim_attempts n ci))).
+    { intros ci <- Hb. split; [intros; apply dim_attempts_valid; assumption|intro; apply dim_attempts_out; assumption]. }
+    destruct (comp_of i) as [z|l|l| |] eqn:Ei; try discriminate H; injection H as <-;
+      exact (G _ eq_refl ltac:(discriminate)).
+Qed.
+
+(* ---------- running the kernels on valid accesses ---------- *)
+Lemma arith_m_of_arith k o a b v : arith k o a b = Some v -> arith_m k o a b = Some (Some v).
+Proof.
+  intro H. destruct (kind_bits k) as [sw|] eqn:Ek.
+  - destruct o; [cbn in *; injection H as <-; reflexivity| | | |];
+      unfold arith in H; unfold arith_m; rewrite Ek in *;
+      (destruct a as [x| | |]; try discriminate; destruct b as [y| | |]; try discriminate);
+      unfold arith_int in H;
+      (destruct (in_range (int_lo sw) (int_hi sw) x); cbn [andb negb] in *;
+       [destruct (in_range (int_lo sw) (int_hi sw) y); cbn [andb negb] in *|]);
+      repeat match type of H with
+             | context [if ?c then _ else _] => destruct c; cbn [option_map] in H
+             end; try discriminate; injection H as <-; reflexivity.
+  - destruct o; [cbn in *; injection H as <-; reflexivity| | | |];
+      unfold arith_m; rewrite Ek, H; reflexivity.
+Qed.
+
+Lemma lift_m_of_arith k o old v new : arith k o old v = Some new -> lift_m k o (Some old) v = Some (Some new).
+Proof.
+  intro H. unfold lift_m. destruct o; try (apply arith_m_of_arith; assumption).
+  cbn in H. injection H as <-. reflexivity.
+Qed.
+
+(* op kernels on exactly the addressed positions *)
+Lemma run_op_exact k o ps vs d d' :
+  app_each (arith k o) ps vs d = Some d' ->
+  run_attempts (lift_m k o) (pairs ps vs) (map Some d) = (true, map Some d').
+Proof. apply run_attempts_ok. intros old v new. apply lift_m_of_arith. Qed.
+
+Lemma run_set_exact ps (vs d d' : list sx) :
+  app_each f_set ps vs d = Some d' ->
+  run_attempts m_set (pairs ps vs) (map Some d) = (true, map Some d').
+Proof. apply run_attempts_ok. intros old v new H. unfold f_set in H. injection H as <-. reflexivity. Qed.
+
+(* plain scalar assignment: the order of the kernel's loop does not matter *)
+Lemma run_set_covers ats ps (e : sx) d d' :
+  covers ats ps -> Forall (fun p => p < length d) ps ->
+  set_all ps e d = Some d' ->
+  run_attempts m_set (with_src e ats) (map Some d) = (true, map Some d').
+Proof.
+  intros (qs & -> & Hiff) Hlt H.
+  assert (Hq : Forall (fun p => p < length d) qs).
+  { rewrite Forall_forall in *. intros p Hp. apply Hlt. apply Hiff. assumption. }
+  destruct (app_each_set_defined qs (repeat e (length qs)) d Hq) as (d1 & H1).
+  rewrite with_src_pairs. rewrite (run_set_exact _ _ _ _ H1). f_equal. f_equal.
+  eapply set_all_ext; [exact H1|exact H|exact Hiff].
+Qed.
+
+Lemma wf_lt (x : mat sx) ps : wf_mat x -> Forall (fun p => p < mrows x * mcols x) ps -> Forall (fun p => p < length (mdata x)) ps.
+Proof. unfold wf_mat. intros ->. auto. Qed.
+
+Definition good (m : mres) (sp : outcome) : Prop :=
+  exists fin pat, m = Some (fin, pat) /\ (fin = true -> exists d, sp = OkNew d /\ pat = map Some d).
+
+Lemma good_refused d sp : good (refused d) sp.
+Proof. exists false, d. split; [reflexivity|discriminate]. Qed.
+
+Lemma good_fail g ats d sp :
+  (exists a, In a ats /\ (fst a = None \/ snd a = None)) -> good (runm g ats d) sp.
+Proof.
+  intro H. unfold runm. destruct (run_attempts g ats d) as [fin pat] eqn:E.
+  exists fin, pat. split; [reflexivity|]. intros ->.
+  pose proof (run_attempts_fail g ats d H) as F. rewrite E in F. discriminate.
+Qed.
+
+Lemma good_exact g ats d d' :
+  run_attempts g ats (map Some d) = (true, map Some d') -> good (runm g ats (map Some d)) (OkNew d').
+Proof. intro H. unfold runm. rewrite H. exists true, (map Some d'). split; [reflexivity|eauto]. Qed.
+
+Lemma set_all_total ps (e : sx) d : Forall (fun p => p < length d) ps -> exists d', set_all ps e d = Some d'.
+Proof. intro H. unfold set_all. apply app_each_set_defined. assumption. Qed.
+
+Definition not_soft (s : cstat) : Prop := match s with CSoft _ => False | _ => True end.
+
+Lemma ml_set_scalar fx k x t k' e sp :
+  wf_mat x ->
+  t <> TWhole ->
+  kf_structural fx k OSet t (SSc k' e) (mrows x * mcols x) = None ->
+  1 <= mrows x * mcols x ->
+  not_soft (target_status (mrows x) (mcols x) t) ->
+  (target_status (mrows x) (mcols x) t = COut -> sp = MustErr) ->
+  (forall ps, target_status (mrows x) (mcols x) t = CValid ps ->
+              sp = spec_update k OSet ps (repeat e (length ps)) (mdata x)) ->
+  good (mech_set_scalar fx k (mrows x) (mcols x) t e (map Some (mdata x))) sp.
+Proof.
+  intros Hwf Ht Hkf Hn Hns Hout Hval.
+  assert (Hm : mech_set_scalar fx k (mrows x) (mcols x) t e (map Some (mdata x)) =
+               match mech_positions fx k (mrows x) (mcols x) t with
+               | Some ps => runm m_set (with_src e ps) (map Some (mdata x))
+               | None => refused (map Some (mdata x))
+               end) by (destruct t; [contradiction|reflexivity|reflexivity]).
+  rewrite Hm. clear Hm.
+  destruct (mech_positions fx k (mrows x) (mcols x) t) as [ats|] eqn:Em; [|apply good_refused].
+  assert (Hpos : (forall ps, target_status (mrows x) (mcols x) t = CValid ps -> covers ats ps) /\
+                 (target_status (mrows x) (mcols x) t = COut -> In None ats)).
+  { destruct t as [|i|i j]; [contradiction| |].
+    - destruct (mech_positions_T1 _ _ _ _ _ _ Hn Em) as [Hv Ho]. split; [|assumption].
+      intros ps Hps. exists ps. split; [apply Hv; assumption|reflexivity].
+    - apply (mech_positions_T2 fx k); [| |assumption].
+      + intros -> Hb ->. cbn [kf_structural is_set is_all] in Hkf. rewrite Hb in Hkf. cbn in Hkf. discriminate.
+      + intros -> Hm Hu Hb. cbn [kf_structural is_set] in Hkf. destruct j; try discriminate Hb; cbn [is_all] in Hkf; rewrite Hm, Hu, Hb in Hkf; cbn in Hkf; discriminate. }
+  destruct Hpos as [Hv Ho].
+  destruct (target_status (mrows x) (mcols x) t) as [ps| |w] eqn:Et; [| |destruct Hns].
+  - specialize (Hv ps eq_refl). rewrite (Hval ps eq_refl).
+    assert (Hlt : Forall (fun p => p < length (mdata x)) ps).
+    { apply wf_lt; [assumption|]. eapply target_status_lt; eassumption. }
+    destruct (set_all_total ps e (mdata x) Hlt) as (d' & Hd).
+    unfold spec_update. rewrite arith_set. unfold set_all in Hd. rewrite Hd.
+    apply good_exact. eapply run_set_covers; eassumption.
+  - rewrite (Hout eq_refl). apply good_fail. apply with_src_None. apply Ho. reflexivity.
+Qed.
+
+Definition fixed (sp : outcome) : Prop := match sp with NotFixed _ => False | _ => True end.
+
+Lemma good_op_exact k o ps e d sp w :
+  sp = (if andb (negb (is_set o)) (negb (nodupb ps)) then NotFixed w
+        else spec_update k o ps (repeat e (length ps)) d) ->
+  fixed sp ->
+  good (runm (lift_m k o) (with_src e (map Some ps)) (map Some d)) sp.
+Proof.
+  intros -> Hf. destruct (andb _ _); [destruct Hf|].
+  unfold spec_update in *. destruct (app_each (arith k o) ps (repeat e (length ps)) d) as [d'|] eqn:E; [|destruct Hf].
+  apply good_exact. rewrite with_src_pairs. apply run_op_exact. exact E.
+Qed.
+
+Lemma col_outer_exact r c i j ps :
+  comp_of i <> CBad -> comp_of j <> CBad ->
+  target_status r c (T2 i j) = CValid ps ->
+  col_outer r (dim_attempts r (comp_of i)) (dim_attempts c (comp_of j)) = map Some ps.
+Proof.
+  intros Hi Hj H. apply target_status_T2_valid in H as (ri & cj & Ei & Ej & ->).
+  rewrite (dim_attempts_valid _ _ _ Ei Hi), (dim_attempts_valid _ _ _ Ej Hj). apply col_outer_valid.
+Qed.
+
+(* one dimension addressed through comp_of i, op kernel *)
+Lemma good_op_dim k o n i e d sp w :
+  comp_of i <> CBad ->
+  sp = match comp_status n i with
+       | CValid ps => if andb (negb (is_set o)) (negb (nodupb ps)) then NotFixed w
+                      else spec_update k o ps (repeat e (length ps)) d
+       | COut => MustErr
+       | CSoft w' => NotFixed w'
+       end ->
+  fixed sp ->
+  good (runm (lift_m k o) (with_src e (dim_attempts n (comp_of i))) (map Some d)) sp.
+Proof.
+  intros Hb -> Hf. destruct (comp_status n i) as [ps| |w'] eqn:Es; [| |destruct Hf].
+  - rewrite (dim_attempts_valid _ _ _ Es Hb). eapply good_op_exact; [reflexivity|assumption].
+  - apply good_fail. apply with_src_None. apply dim_attempts_out; assumption.
+Qed.
+
+Lemma good_op_2d k o r c i j e d sp w :
+  comp_of i <> CBad -> comp_of j <> CBad ->
+  sp = match target_status r c (T2 i j) with
+       | CValid ps => if andb (negb (is_set o)) (negb (nodupb ps)) then NotFixed w
+                      else spec_update k o ps (repeat e (length ps)) d
+       | COut => MustErr
+       | CSoft w' => NotFixed w'
+       end ->
+  fixed sp ->
+  good (runm (lift_m k o) (with_src e (col_outer r (dim_attempts r (comp_of i)) (dim_attempts c (comp_of j)))) (map Some d)) sp.
+Proof.
+  intros Hi Hj -> Hf. destruct (target_status r c (T2 i j)) as [ps| |w'] eqn:Es; [| |destruct Hf].
+  - rewrite (col_outer_exact _ _ _ _ _ Hi Hj Es). eapply good_op_exact; [reflexivity|assumption].
+  - apply good_fail. apply with_src_None. apply (outer_generic false r c i j Hi Hj). assumption.
+Qed.
+
+
+Lemma is_scalar_CS i z : comp_of i = CS z -> i = IS z /\ is_scalar_ix i = true.
+Proof. intro H. apply comp_of_CS in H. subst. auto. Qed.
+
+Lemma comp_status_T1 r c i : target_status r c (T1 i) = comp_status (r * c) i.
+Proof. reflexivity. Qed.
+
+Lemma ml_op_scalar fx k x o t e :
+  wf_mat x -> 1 <= mrows x -> 1 <= mcols x ->
+  is_set o = false -> is_numeric k = true ->
+  kf_structural fx k o t (SSc k e) (mrows x * mcols x) = None ->
+  fixed (spec_step k x (SAsg o t (SSc k e))) ->
+  good (mech_op_scalar fx k (mrows x) (mcols x) o t e (map Some (mdata x))) (spec_step k x (SAsg o t (SSc k e))).
+Proof.
+  intros Hwf Hr Hc Ho Hnum Hkf Hfix.
+  unfold spec_step in *. cbn [src_kind] in *. rewrite String.eqb_refl in *. cbn [negb] in *.
+  rewrite Ho, Hnum in *. cbn [andb negb source_form_soft] in *.
+  cbn [kf_structural] in Hkf. rewrite Ho in Hkf.
+  destruct t as [|i|i j]; cbn [mech_op_scalar].
+  - (* x op= e *)
+    cbn [target_status] in *.
+    destruct (op_kind_ok fx k); [|apply good_refused].
+    eapply good_op_exact; [|assumption]. rewrite Ho. reflexivity.
+  - (* x[i] op= e *)
+    destruct (single_mask i) as [b|]; [discriminate|].
+    rewrite comp_status_T1 in *.
+    destruct (comp_of i) as [z|l|l| |] eqn:Ei; try apply good_refused.
+    + destruct (is_scalar_CS _ _ Ei) as [-> Hs]. rewrite Hs in Hkf.
+      destruct fx; [|discriminate]. destruct (op_kind_ok true k); [|apply good_refused].
+      rewrite <- Ei. eapply good_op_dim; [rewrite Ei; discriminate| |assumption]. rewrite Ho. reflexivity.
+    + destruct (op_kind_ok fx k); [|apply good_refused].
+      rewrite <- Ei. eapply good_op_dim; [rewrite Ei; discriminate| |assumption]. rewrite Ho. reflexivity.
+  - (* x[i,j] op= e *)
+    destruct (is_all j) eqn:Ej; cbn [negb]; [|apply good_refused].
+    assert (j = IAll) by (destruct j; try discriminate; reflexivity). subst j.
+    destruct (comp_of i) as [z|l|l| |] eqn:Ei; try apply good_refused.
+    + destruct (is_scalar_CS _ _ Ei) as [-> Hs]. rewrite Hs in Hkf. cbn [is_scalar_ix] in Hkf.
+      destruct fx; [|discriminate]. cbv zeta. destruct (op_kind_ok true k); [|apply good_refused].
+      change (CS z) with (comp_of (IS z)). change CA with (comp_of IAll).
+      eapply good_op_2d; try (cbn; discriminate); [|assumption]. rewrite Ho. reflexivity.
+    + destruct (op_kind_ok fx k); [|apply good_refused].
+      assert (Hd : andb (is_div o) (negb fx) = false).
+      { destruct (is_div o) eqn:Ed, fx; try reflexivity. exfalso.
+        rewrite (is_uvec_CU _ _ Ei) in Hkf. destruct (is_scalar_ix i); discriminate. }
+      rewrite Hd. rewrite <- Ei. change CA with (comp_of IAll).
+      eapply good_op_2d; try (rewrite ?Ei; cbn; discriminate); [|assumption]. rewrite Ho. reflexivity.
+Qed.
+
+Lemma same_orientation_whole x col : same_orientation x col = whole_shape_ok TWhole x col.
+Proof.
+  unfold same_orientation, whole_shape_ok, x_is_row, x_is_col. destruct col; cbn [negb].
+  - rewrite andb_false_r, andb_true_r. reflexivity.
+  - rewrite andb_false_r, andb_true_r, orb_false_r. reflexivity.
+Qed.
+
+Lemma good_vec_dim k o n i vs d sp w1 w2 :
+  comp_of i <> CBad ->
+  sp = match comp_status n i with
+       | CValid ps => if Nat.ltb (length vs) (length ps) then MustErr
+                      else if Nat.ltb (length ps) (length vs) then NotFixed w1
+                      else if negb (nodupb ps) then NotFixed w2
+                      else spec_update k o ps vs d
+       | COut => MustErr
+       | CSoft w' => NotFixed w'
+       end ->
+  fixed sp ->
+  good (runm (lift_m k o) (zip_src 0 (dim_attempts n (comp_of i)) vs) (map Some d)) sp.
+Proof.
+  intros Hb -> Hf. destruct (comp_status n i) as [ps| |w'] eqn:Es; [| |destruct Hf].
+  - rewrite (dim_attempts_valid _ _ _ Es Hb).
+    destruct (Nat.ltb_spec (length vs) (length ps)) as [H1|H1].
+    + apply good_fail. apply zip_src_short. rewrite map_length. assumption.
+    + destruct (Nat.ltb_spec (length ps) (length vs)) as [H2|H2]; [destruct Hf|].
+      destruct (negb (nodupb ps)); [destruct Hf|].
+      unfold spec_update in *. destruct (app_each (arith k o) ps vs d) as [d'|] eqn:E; [|destruct Hf].
+      apply good_exact. rewrite zip_src_pairs0 by lia. apply run_op_exact. exact E.
+  - apply good_fail. apply zip_src_None. apply dim_attempts_out; assumption.
+Qed.
+
+Lemma run_set_as_lift k ats d : run_attempts m_set ats d = run_attempts (lift_m k OSet) ats d.
+Proof. reflexivity. Qed.
+
+Lemma ml_vec fx k x o t col vs :
+  wf_mat x ->
+  kf_structural fx k o t (SVec k col vs) (mrows x * mcols x) = None ->
+  fixed (spec_step k x (SAsg o t (SVec k col vs))) ->
+  good (mech_vec fx k x o t col vs (map Some (mdata x))) (spec_step k x (SAsg o t (SVec k col vs))).
+Proof.
+  intros Hwf Hkf Hfix.
+  unfold spec_step in *. cbn [src_kind] in *. rewrite String.eqb_refl in *. cbn [negb] in *.
+  destruct (andb (is_set o) match t with TWhole => true | _ => false end) eqn:E1; [destruct Hfix|].
+  destruct (andb (negb (is_set o)) (negb (is_numeric k))) eqn:E2; [destruct Hfix|].
+  unfold mech_vec. cbn [kf_structural] in Hkf.
+  destruct t as [|i|i j]; cbn [source_form_soft] in *; [| |destruct Hfix].
+  - (* x op= vs *)
+    rewrite andb_true_r in E1. rewrite E1 in *.
+    destruct (Nat.ltb (length vs) 2); [destruct Hfix|].
+    rewrite same_orientation_whole.
+    destruct (whole_shape_ok TWhole x col); cbn [negb] in *; [|destruct Hfix].
+    cbn [target_status] in *. rewrite seq_length in *.
+    destruct (Nat.ltb_spec (length vs) (mrows x * mcols x)) as [H1|H1]; [discriminate|].
+    destruct (Nat.ltb_spec (mrows x * mcols x) (length vs)) as [H2|H2]; [destruct Hfix|].
+    destruct (negb (op_kind_ok fx k)); [apply good_refused|].
+    destruct (negb (nodupb _)); [destruct Hfix|].
+    unfold spec_update in *.
+    destruct (app_each (arith k o) (seq 0 (mrows x * mcols x)) vs (mdata x)) as [d'|] eqn:E; [|destruct Hfix].
+    apply good_exact. rewrite Nat.min_l by lia.
+    rewrite zip_src_pairs0 by (rewrite seq_length; lia). apply run_op_exact. exact E.
+  - (* x[i] op= vs *)
+    destruct (Nat.ltb (length vs) 2); [destruct Hfix|].
+    cbn [whole_shape_ok negb] in *. rewrite comp_status_T1 in *.
+    destruct (comp_of i) as [z|l|l| |] eqn:Ei; try apply good_refused.
+    + rewrite <- Ei.
+      destruct (is_set o) eqn:Eo.
+      * assert (o = OSet) by (destruct o; try discriminate; reflexivity). subst o.
+        change (@m_set sx) with (lift_m k OSet).
+        eapply good_vec_dim; [rewrite Ei; discriminate|reflexivity|assumption].
+      * destruct (op_kind_ok fx k); [|apply good_refused].
+        eapply good_vec_dim; [rewrite Ei; discriminate|reflexivity|assumption].
+    + destruct (is_set o) eqn:Eo; cbn [andb]; [|apply good_refused].
+      rewrite (is_bmask_CB _ _ Ei) in Hkf. discriminate.
+Qed.
+
+(* ---------- assembling ---------- *)
+Lemma spec_step_set_scalar k x t e :
+  t <> TWhole ->
+  spec_step k x (SAsg OSet t (SSc k e)) =
+  match target_status (mrows x) (mcols x) t with
+  | CValid ps => spec_update k OSet ps (repeat e (length ps)) (mdata x)
+  | COut => MustErr
+  | CSoft w => NotFixed w
+  end.
+Proof.
+  intro Ht. unfold spec_step. cbn [src_kind]. rewrite String.eqb_refl. cbn [negb is_set andb source_form_soft].
+  destruct t; [contradiction| |]; reflexivity.
+Qed.
+
+Theorem mech_model_correct fx k x s :
+  wf_mat x -> 1 <= mrows x -> 1 <= mcols x ->
+  fixed (spec_step k x s) ->
+  (forall o t src, s = SAsg o t src -> kf_structural fx k o t src (mrows x * mcols x) = None) ->
+  good (mech_step fx k x s) (spec_step k x s).
+Proof.
+  intros Hwf Hr Hc Hfix Hkf.
+  destruct s as [o t src|t]; [|destruct Hfix].
+  specialize (Hkf o t src eq_refl).
+  unfold mech_step.
+  destruct (String.eqb (src_kind src) k) eqn:Ek; cbn [negb]; [|apply good_refused].
+  apply String.eqb_eq in Ek.
+  destruct (andb (negb (is_set o)) (negb (is_numeric k))) eqn:E2.
+  { exfalso. unfold spec_step in Hfix. rewrite Ek, String.eqb_refl in Hfix. cbn [negb] in Hfix.
+    destruct (andb (is_set o) _); [exact Hfix|]. rewrite E2 in Hfix. exact Hfix. }
+  destruct src as [k' e|k' col vs]; cbn [src_kind] in Ek; subst k'.
+  - destruct (is_set o) eqn:Eo.
+    + assert (o = OSet) by (destruct o; try discriminate; reflexivity). subst o.
+      assert (Ht : t <> TWhole).
+      { intros ->. unfold spec_step in Hfix. cbn [src_kind] in Hfix. rewrite String.eqb_refl in Hfix. exact Hfix. }
+      rewrite (spec_step_set_scalar k x t e Ht) in *.
+      apply (ml_set_scalar fx k x t k e); auto.
+      * nia.
+      * destruct (target_status (mrows x) (mcols x) t); [exact I|exact I|exact Hfix].
+      * intros ->. reflexivity.
+      * intros ps ->. reflexivity.
+    + apply ml_op_scalar; auto.
+      cbn [negb andb] in E2. destruct (is_numeric k); [reflexivity|discriminate].
+  - apply ml_vec; auto.
+Qed.
+
+Fixpoint sx_eqb_refl (a : sx) : sx_eqb a a = true.
+Proof.
+  destruct a as [z|s|s|l]; cbn.
+  - apply Z.eqb_refl.
+  - apply String.eqb_refl.
+  - apply String.eqb_refl.
+  - induction l as [|x l IH]; [reflexivity|]. rewrite sx_eqb_refl. exact IH.
+Qed.
+
+Lemma pat_match_refl d : sx_pat_match (map Some d) d = true.
+Proof. unfold sx_pat_match. induction d as [|a d IH]; cbn; [reflexivity|]. rewrite sx_eqb_refl. exact IH. Qed.
+
+Lemma all_known_map d : all_known (map Some d) = true.
+Proof. unfold all_known. induction d; cbn; auto. Qed.
+
+Lemma pat_match_eq pat : forall d, all_known pat = true -> sx_pat_match pat d = true -> pat = map Some d.
+Proof.
+  unfold all_known, sx_pat_match. induction pat as [|[a|] pat IH]; intros [|b d] Hk Hm; cbn in *; try discriminate.
+  - reflexivity.
+  - apply andb_prop in Hm as [H1 H2]. apply sx_eqb_eq in H1. subst. f_equal. apply IH; assumption.
+Qed.
+
+Theorem mech_holds fx k x s :
+  wf_mat x -> 1 <= mrows x -> 1 <= mcols x ->
+  kf_class fx k x s = None ->
+  match spec_step k x s with
+  | OkNew d => mech_step fx k x s = Some (true, map Some d)
+  | MustErr => mech_step fx k x s = Some (false, map Some (mdata x))
+  | NotFixed _ => True
+  end.
+Proof.
+  intros Hwf Hr Hc H.
+  destruct s as [o t src|t]; [|exact I].
+  unfold kf_class in H.
+  pose proof (mech_model_correct fx k x (SAsg o t src) Hwf Hr Hc) as ML.
+  destruct (spec_step k x (SAsg o t src)) as [d| |w] eqn:Es; [| |exact I].
+  - destruct (agrees (OkNew d) (mech_step fx k x (SAsg o t src)) (mdata x)) eqn:Ea.
+    + unfold agrees in Ea. destruct (mech_step fx k x (SAsg o t src)) as [[[|] pat]|]; try discriminate.
+      apply andb_prop in Ea as [E1 E2]. rewrite (pat_match_eq _ _ E1 E2). reflexivity.
+    + destruct (kf_structural fx k o t src (mrows x * mcols x)) eqn:Eks; [discriminate|].
+      destruct (ML I) as (fin & pat & Em & Hfin).
+      { intros o' t' src' E. injection E as <- <- <-. exact Eks. }
+      rewrite Em in *. destruct fin.
+      * destruct (Hfin eq_refl) as (d' & Ed & ->). injection Ed as <-.
+        cbn in Ea. rewrite all_known_map, pat_match_refl in Ea. discriminate.
+      * destruct (andb (all_known pat) (sx_pat_match pat (mdata x))); discriminate.
+  - destruct (agrees MustErr (mech_step fx k x (SAsg o t src)) (mdata x)) eqn:Ea.
+    + unfold agrees in Ea. destruct (mech_step fx k x (SAsg o t src)) as [[[|] pat]|]; try discriminate.
+      apply andb_prop in Ea as [E1 E2]. rewrite (pat_match_eq _ _ E1 E2). reflexivity.
+    + destruct (kf_structural fx k o t src (mrows x * mcols x)) eqn:Eks; [discriminate|].
+      destruct (ML I) as (fin & pat & Em & Hfin).
+      { intros o' t' src' E. injection E as <- <- <-. exact Eks. }
+      rewrite Em in *. destruct fin.
+      * destruct (Hfin eq_refl) as (d' & Ed & _). discriminate.
+      * cbn in Ea. rewrite Ea in H. discriminate.
+Qed.
